@@ -48,6 +48,22 @@ def num_hessian(f, x, h):
     return H
 
 
+def ref_hessian(f, x):
+    """careful reference Hessian: steps scaled to the *conditional* widths (stiff directions of correlated problems need small steps),
+    Richardson extrapolation of two central-difference estimates; returns (H, relative instability)"""
+    x = np.asarray(x, float)
+    H1 = num_hessian(f, x, np.maximum(np.abs(x), 1e-3) * 1e-4)
+    d = np.diag(H1)
+    if np.any(~np.isfinite(d)) or np.any(d <= 0):
+        return H1, np.inf
+    sc = np.sqrt(2.0 / d)
+    Ha = num_hessian(f, x, 0.05 * sc)
+    Hb = num_hessian(f, x, 0.025 * sc)
+    H = (4.0 * Hb - Ha) / 3.0
+    norm = np.sqrt(np.outer(np.abs(np.diag(H)), np.abs(np.diag(H)))) + 1e-300
+    return H, float(np.max(np.abs(H - Hb) / norm))
+
+
 def reference_minimum(ref, spec, free, fixed_vals):
     names = ref.names
     tb = spec["truth"]
